@@ -15,10 +15,16 @@ if ! cmp -s _CoqProject.new _CoqProject 2>/dev/null || [ ! -f Makefile ]; then
 else
   rm -f _CoqProject.new
 fi
+# -k: a file that does not compile must not keep unrelated properties from being checked; the check of a
+# property whose own files failed reports that itself (coqc on Properties/Cxx.v fails).
+mkdir -p "$here/.work"
 if [ "$1" = "--incremental" ]; then
-  timeout 3000 make -j16 >"$here/.work/make.log" 2>&1 || { tail -40 "$here/.work/make.log"; exit 1; }
+  timeout 3000 make -k -j16 >"$here/.work/make.log" 2>&1 || { grep -E "^(File|Error|make.*Error)" "$here/.work/make.log" | head -20; true; }
 else
-  mkdir -p "$here/.work"
-  timeout 3000 make -j16 2>&1 | tail -5
-  test "${PIPESTATUS[0]}" = 0
+  timeout 3000 make -k -j16 >"$here/.work/make.log" 2>&1 || true
+  tail -3 "$here/.work/make.log"
+  if grep -qE "^make.*Error" "$here/.work/make.log"; then
+    echo "setup: some files failed to compile:"; grep -B3 -E "^Error" "$here/.work/make.log" | grep -E "^File" | sort -u | head -20
+  fi
 fi
+exit 0
